@@ -346,7 +346,7 @@ def program2(case, with_inner=True, with_outer=True):
         ist.append(["orderby", [["col", "R", "id"]]])
     if with_inner:
         ist += pag_steps(case["Li"], case["Oi"], case["order"])
-    outer_pag = pag_steps(case["Lo"], case["Oo"], case["order"] if pos != "setop" or case["order"] != "slice" else "lo") if with_outer else []
+    outer_pag = pag_steps(case["Lo"], case["Oo"], case["order"]) if with_outer else []
     if pos == "setop":
         other = {"cls": "inherit", "sources": {}, "steps": [["from_", [["src", "R2"]]], ["select", [["col", "R2", "id"]]], ["where", [["lt", ["col", "R2", "id"], ["raw", 100 + case["wv"]]]]]]}
         steps = ist + [["union_all", [["q", other]]]]
@@ -471,7 +471,7 @@ def check_top(cls, k, par):
 def all_cases():
     for cls, position, orderby, L, O, par in itertools.product(CTXS, POSITIONS, (False, True), (None, 0, LV), (None, 0, OV), (False, True)):
         for name, steps in plans(L, O, cls):
-            if position == "setop_self" and name not in ("none", "limit", "offset", "limit_offset", "offset_limit", "limit_twice", "offset_twice"):
+            if position == "setop_self" and name not in ("none", "limit", "offset", "limit_offset", "offset_limit", "limit_twice", "offset_twice", "slice", "slice_then_limit", "getitem"):
                 continue
             yield {"cls": cls, "pos": position, "orderby": orderby, "L": L, "O": O, "par": par, "plan": name}
 
